@@ -161,6 +161,28 @@ func checkC11(r *Result) {
 			}
 		}
 		r.check(okUntil && okFlag, "JAIL", "(x/reporter/keeper.Keeper).JailReporter # Jailed=true, JailedUntil = block time + duration seconds", P.Pos(rj.Pos()), fmt.Sprintf("until: %v ; flag: %v", okUntil, okFlag))
+		// every success return has written the jail record with the new term: a success without it
+		// lets a funded dispute pass whose jail term was dropped
+		ps := AnalyzePaths(rj, []Atom{
+			{Name: "termSet", Event: func(in ssa.Instruction) (bool, int8) {
+				if st, ok := in.(*ssa.Store); ok {
+					if fa, ok := st.Addr.(*ssa.FieldAddr); ok && fieldName(fa.X.Type(), fa.Field) == "x/reporter/types.OracleReporter.JailedUntil" {
+						return true, T
+					}
+				}
+				return false, U
+			}},
+			{Name: "stored", Event: P.CallEvent(descIs("coll:x/reporter/keeper.Keeper.Reporters.Set"), T)},
+		})
+		okAll := true
+		nret := 0
+		for _, ret := range SuccessReturns(rj) {
+			nret++
+			if bad := ps.Require(ret, func(v map[string]bool) bool { return v["termSet"] && v["stored"] }); len(bad) > 0 {
+				okAll = false
+			}
+		}
+		r.check(okAll && nret > 0, "JAIL", "(x/reporter/keeper.Keeper).JailReporter # every success return has stored the record with the new jail term", P.Pos(rj.Pos()), fmt.Sprintf("%d success returns", nret))
 	}
 	// ---- ONCE-SLASH
 	{
